@@ -1,4 +1,5 @@
 mod asm;
+mod dump;
 mod orch;
 mod proc;
 mod readers;
